@@ -2,6 +2,7 @@ package c03
 
 import (
 	"bytes"
+	"crypto/rand"
 	"crypto/sha256"
 	"encoding/hex"
 	"encoding/pem"
@@ -14,11 +15,13 @@ import (
 	"github.com/google/certificate-transparency-go/submission"
 	cttls "github.com/google/certificate-transparency-go/tls"
 	"github.com/google/certificate-transparency-go/x509"
+	"github.com/google/certificate-transparency-go/x509/pkix"
 	"github.com/google/certificate-transparency-go/x509util"
 	"pgregory.net/rapid"
 
 	"verif/internal/derx"
 	"verif/internal/harness"
+	"verif/internal/keys"
 	"verif/internal/pki"
 	"verif/internal/preref"
 	"verif/internal/rfc6962"
@@ -179,6 +182,49 @@ func checkSCT(t *testing.T, c Case) harness.Verdict {
 		v.Class("list=with-opaque")
 	}
 
+	// the embedding route of (5): x509.CreateCertificate from a template that carries the list as SCTList.
+	// Templates that came out of ParseCertificate also carry a RawSCT; what has to end up in the certificate
+	// is the SCTList the caller set, whatever an older RawSCT says (absent / stale list with the same
+	// framing but other contents / stale list with other framing).
+	{
+		tmpl := &x509.Certificate{SerialNumber: big.NewInt(int64(c.KeyIdx) + 2), Subject: pkixName("c03 embed"), NotBefore: pki.Epoch, NotAfter: pki.Epoch.AddDate(1, 0, 0)}
+		for _, sct := range w.SCTs {
+			tmpl.SCTList.SCTList = append(tmpl.SCTList.SCTList, x509.SerializedSCT{Val: sct})
+		}
+		mode := c.SCT2Pos % 4
+		switch mode {
+		case 1: // same framing, other contents
+			stale := make([][]byte, len(w.SCTs))
+			for i, sct := range w.SCTs {
+				stale[i] = bytes.Clone(sct)
+				for j := range stale[i] {
+					stale[i][j] ^= byte(0x35 + j)
+				}
+			}
+			tmpl.RawSCT, _ = rfc6962.EncodeSCTList(stale)
+		case 2: // other framing
+			tmpl.RawSCT, _ = rfc6962.EncodeSCTList([][]byte{{1, 2, 3}})
+		case 3: // the current encoding itself
+			tmpl.RawSCT = bytes.Clone(w.List)
+		}
+		v.Class(fmt.Sprintf("create-template-rawsct=%s", []string{"absent", "stale-same-framing", "stale-other-framing", "current"}[mode]))
+		ek := keys.Pick("p256", c.KeyIdx)
+		der, err := x509.CreateCertificate(rand.Reader, tmpl, tmpl, ek.Pub, ek.Signer)
+		if err != nil {
+			v.Failf("create-error", "x509.CreateCertificate with an SCTList of %d elements: %v", len(w.SCTs), err)
+		} else if ev := preref.ExtValue(der, preref.OIDSCTList); !bytes.Equal(ev, w.ExtValue) {
+			v.Failf("create-embeds-other-list", "x509.CreateCertificate embedded another SCT list than the template's SCTList (RawSCT mode %d)\n got  %s\n want %s", mode, short(ev), short(w.ExtValue))
+		} else if back, err := x509.ParseCertificate(der); err != nil || len(back.SCTList.SCTList) != len(w.SCTs) {
+			v.Failf("create-readback", "certificate made by CreateCertificate does not read back the list: %v", err)
+		} else {
+			for i := range w.SCTs {
+				if !bytes.Equal(back.SCTList.SCTList[i].Val, w.SCTs[i]) {
+					v.Failf("create-readback", "certificate made by CreateCertificate: SCTList[%d] differs from the template's", i)
+				}
+			}
+		}
+	}
+
 	// negative variant of (5): a well-formed list followed by 1-3 stray bytes inside the OCTET STRING is not
 	// a SignedCertificateTimestampList; whatever is read back, it must not be handed out as if it were clean.
 	if trail, terr := hex.DecodeString(c.Trailing); terr == nil && len(trail) > 0 {
@@ -297,3 +343,5 @@ var SCT = harness.Define(harness.Opts{
 	Quick:    1200,
 	Thorough: 8000,
 }, func(t *rapid.T) Case { return genCase(t, true) }, checkSCT)
+
+func pkixName(cn string) pkix.Name { return pkix.Name{CommonName: cn} }
